@@ -266,6 +266,9 @@ func (c *cors) handle(node types.Node, wh http.Header, r *http.Request) {
 
 	if preflight {
 		// Access-Control-Allow-Methods
+		if len(r.Header.Values(header.AccessControlRequestMethod)) > 1 { // 只能有一个值，多个值时无法确定预检的是哪个请求方法。
+			return
+		}
 		if slices.Index(node.Methods(), reqMethod) < 0 {
 			return
 		}
